@@ -68,9 +68,19 @@ class sink(Sink):
     def update(self, x, who=None, metadata=None):
         result = self.func(x, *self.args, **self.kwargs)
         if gen.isawaitable(result):
+            if metadata:
+                return self._hold(result, metadata)
             return result
         else:
             return []
+
+    @gen.coroutine
+    def _hold(self, awaitable, metadata):
+        # the element is in use until the awaitable has finished without error
+        self._retain_refs(metadata)
+        result = yield awaitable
+        self._release_refs(metadata)
+        return result
 
 
 @Stream.register_api()
